@@ -140,6 +140,7 @@ size_t vh_unhex(const char* s, uint8_t** out);
 /* --------------------------------------------------------------- allocators */
 /* "track": libc pass-through + side table + fault policies */
 void tg_install_variant(unsigned v); /* one of 8 triples made of two copies of each tagged function */
+extern size_t AR_cap;
 extern unsigned TG_variant;
 extern uint64_t TG_stale_calls, PT_reallocs, PT_frees;
 void pt_install(void);                /* (libc malloc, counting realloc, counting free) */
